@@ -14,7 +14,7 @@ import (
 func ParseTemplateBytes(templateBytes []byte) ([]*html.Node, error) {
 	// Check if input template contains html/body
 	if bytes.Contains(templateBytes, []byte("</html>")) {
-		doc, err := html.Parse(bytes.NewReader(templateBytes))
+		doc, err := html.ParseWithOptions(bytes.NewReader(templateBytes), html.ParseOptionEnableScripting(false))
 		if err != nil {
 			return nil, err
 		}
@@ -27,7 +27,7 @@ func ParseTemplateBytes(templateBytes []byte) ([]*html.Node, error) {
 
 	// Parse the fragment using cached body element
 	body := helpers.GetBodyNode()
-	nodes, err := html.ParseFragment(bytes.NewReader(templateBytes), body)
+	nodes, err := html.ParseFragmentWithOptions(bytes.NewReader(templateBytes), body, html.ParseOptionEnableScripting(false))
 	if err != nil {
 		return nil, err
 	}
